@@ -157,6 +157,7 @@ func (ex *Exec) closeFacts(asserts []*Term) []*Term {
 					switch x.Name {
 					case "blen":
 						add(Ge(x, IntC(0)))
+						add(Le(x, IntB(Pow2(40)))) // A14
 					case "bsub":
 						add(Eq(App("blen", SInt, x), x.Args[2]))
 						add(Implies(And(Eq(x.Args[1], IntC(0)), Eq(x.Args[2], App("blen", SInt, x.Args[0]))), Eq(x, x.Args[0])))
@@ -180,7 +181,7 @@ func (ex *Exec) closeFacts(asserts []*Term) []*Term {
 							add(Implies(Eq(in.Args[0], IntC(0)), Eq(x, in.Args[1])))
 						}
 					}
-					if strings.HasPrefix(x.Name, "m_") && x.Sort == SInt {
+					if (strings.HasPrefix(x.Name, "p_") || strings.HasPrefix(x.Name, "g_")) && x.Sort == SInt {
 						// error-valued method results: ids are non-negative
 						add(Ge(x, IntC(0)))
 					}
